@@ -233,3 +233,172 @@ func (r *Report) GoArgNotReused(key, fnKey, callee string, minSites int) {
 	}
 	r.OK(k, d, w.FnPos(fn), fmt.Sprintf("%d hand-offs", n))
 }
+
+// NoResliceAfterHandOff: in the given packages no slice value that was handed off (argument of a call other than the
+// builtins, sent on a channel, stored into a field or converted to an interface) is afterwards reset with `s[:0]`
+// (or `s[:n]` keeping its first element): the next append would overwrite the array the receiver still holds. The
+// in-place filter idiom `out := in[:0]` over a slice that never left the function is accepted.
+// Seed C05-12: the cylinder DE worker queued `NewMsgSubmitDEs(batch)` and reused `batch[:0]` for the next batch.
+func (r *Report) NoResliceAfterHandOff(key string, prefixes []string, minFuncs int) {
+	w := r.W
+	d := "a slice that was handed off is not reset to length 0 over the same array in " + strings.Join(prefixes, ", ")
+	n := 0
+	for _, fk := range sortedKeys(w.Funcs) {
+		ok := false
+		for _, p := range prefixes {
+			if strings.HasPrefix(fk, p) {
+				ok = true
+			}
+		}
+		fn := w.Funcs[fk]
+		if !ok || len(fn.Blocks) == 0 {
+			continue
+		}
+		n++
+		nres := 0
+		w.FuncsAnalysed[fn] = true
+		for _, b := range fn.Blocks {
+			for _, in := range b.Instrs {
+				sl, isSl := in.(*ssa.Slice)
+				if !isSl || sl.Low != nil || sl.High == nil {
+					continue
+				}
+				if c, isC := sl.High.(*ssa.Const); !isC || constString(c) != "0" {
+					continue
+				}
+				if _, isSlice := sl.X.Type().Underlying().(*types.Slice); !isSlice || sl.X.Referrers() == nil {
+					continue
+				}
+				handed := ""
+				for _, ref := range *sl.X.Referrers() {
+					switch x := ref.(type) {
+					case ssa.CallInstruction:
+						if _, isB := x.Common().Value.(*ssa.Builtin); !isB {
+							for _, a := range x.Common().Args {
+								if a == sl.X {
+									handed = "passed to " + CalleeName(x.Common())
+								}
+							}
+						}
+					case *ssa.Send:
+						if x.X == sl.X {
+							handed = "sent on a channel"
+						}
+					case *ssa.Store:
+						if x.Val == sl.X {
+							if _, isFA := x.Addr.(*ssa.FieldAddr); isFA {
+								handed = "stored into a field"
+							}
+						}
+					case *ssa.MakeInterface:
+						handed = "converted to an interface value"
+					}
+				}
+				if handed == "" {
+					continue
+				}
+				w.SitesExamined++
+				nres++
+				r.Bad(fmt.Sprintf("%s|%s|reslice#%d", key, fk, nres), d, w.posOr(sl.Pos(), fn), fmt.Sprintf("%s: the slice was %s and is then reset with [:0]; the next append writes into the array the receiver still reads", fk, handed))
+			}
+		}
+	}
+	if n < minFuncs {
+		r.Unres(key+"|count", d, fmt.Sprintf("%d functions examined, expected >= %d", n, minFuncs))
+		return
+	}
+	r.OK(key, d, "-", fmt.Sprintf("%d functions examined", n))
+}
+
+// ArgEdgesAmong: every value that can flow (through phis) into argument #idx of callee in fn matches one of the
+// alternatives (each alternative is a list of patterns all of which must hold for that value).
+func (r *Report) ArgEdgesAmong(key, fnKey, callee string, idx int, alts [][]string, desc string) {
+	w := r.W
+	fn := w.Fn(fnKey)
+	d := fmt.Sprintf("in %s every value reaching argument #%d of %s is %s", fnKey, idx, callee, desc)
+	k := fmt.Sprintf("%s|%s|%s#%d", key, fnKey, callee, idx)
+	if fn == nil {
+		r.Unres(k, d, "function not found")
+		return
+	}
+	w.FuncsAnalysed[fn] = true
+	calls := Calls(fn, callee)
+	if len(calls) == 0 {
+		r.Unres(k, d, "no call of "+callee)
+		return
+	}
+	n := 0
+	for _, c := range calls {
+		seen := map[ssa.Value]bool{}
+		var leaves []ssa.Value
+		var visit func(v ssa.Value)
+		visit = func(v ssa.Value) {
+			if seen[v] {
+				return
+			}
+			seen[v] = true
+			if p, ok := v.(*ssa.Phi); ok {
+				for _, e := range p.Edges {
+					visit(e)
+				}
+				return
+			}
+			leaves = append(leaves, v)
+		}
+		visit(seeThrough(argValue(c.Common(), idx)))
+		for _, lv := range leaves {
+			w.SitesExamined++
+			n++
+			t := Render(lv)
+			ok := false
+			for _, alt := range alts {
+				if t.Has(alt...) {
+					ok = true
+				}
+			}
+			if !ok {
+				r.Bad(k, d, w.posOr(c.Pos(), fn), "a value of another origin reaches the argument: "+clip(t.String(), 160))
+				return
+			}
+		}
+	}
+	r.OK(k, d, w.FnPos(fn), fmt.Sprintf("%d incoming value(s)", n))
+}
+
+// AllStoresHave: fn stores into the field at least once and the value of EVERY such store matches the patterns (with
+// a root anchor this excludes a merge of the expected value with one of another origin, e.g. a cache hit).
+func (r *Report) AllStoresHave(key, fnKey, field string, atoms ...string) {
+	w := r.W
+	fn := w.Fn(fnKey)
+	d := fmt.Sprintf("in %s every value stored into %s derives from {%s}", fnKey, field, strings.Join(atoms, ", "))
+	k := fmt.Sprintf("%s|%s|%s", key, fnKey, field)
+	if fn == nil {
+		r.Unres(k, d, "function not found")
+		return
+	}
+	w.FuncsAnalysed[fn] = true
+	n := 0
+	for _, b := range fn.Blocks {
+		for _, in := range b.Instrs {
+			st, ok := in.(*ssa.Store)
+			if !ok {
+				continue
+			}
+			fa, ok := st.Addr.(*ssa.FieldAddr)
+			if !ok || !nameMatch(fieldName(fa.X.Type(), fa.Field), field) {
+				continue
+			}
+			n++
+			w.SitesExamined++
+			if t := Render(st.Val); !t.Has(atoms...) {
+				r.Bad(k, d, w.posOr(st.Pos(), fn), "stored value is "+clip(t.String(), 200))
+				return
+			}
+		}
+	}
+	if n == 0 {
+		r.Unres(k, d, "no store to the field in this function")
+		return
+	}
+	r.OK(k, d, w.FnPos(fn), fmt.Sprintf("%d store(s)", n))
+}
